@@ -92,20 +92,21 @@ CHECKS['C02'] = dict(level='translation_validation', engine='lirsym/qbe + lirsym
    note='Trusted: z3; go/ssa; the gosym interpreter; intrinsics; harness oracles. Front-end harnesses run the REAL lexer, parser, collector, resolver and type checker (go/ssa) inside the symbolic interpreter on programs assembled from symbolic choices / symbolic characters; within the stated finite product the exploration is exhaustive, nothing beyond it is claimed. NOT decided: what an accepted reformatted program prints, doc-comment / @extern attachment, programs outside the fixed set, multi-character comment bodies, tabs among the inserted trivia (the tool counts a tab as 4 columns and the character after it as 0; split-invariance of Position.Advance over tabs is decided by HarnessC19Advance).')
 # additions of the third seeding round (appended to the texts above)
 EXTRA = {
- 'C01': ' Families added later: optional narrowing (if x != none: read / assign the narrowed parameter or local), closures that capture parameters and locals by reference (modified before / around the literal, counter incremented by the literal), literal spellings (leading zeros, separators, hex, octal, binary), same-width sign-changing casts used directly.',
+ 'C20': ' HarnessC20Sections: every pair of the seven known sections (the header-less default included) through writeTOMLSections and back. HarnessC20HeaderComment: blanks and a comment after a section header.',
+ 'C01': ' Families added later: optional narrowing (if x != none: read / assign the narrowed parameter or local), closures that capture parameters and locals by reference (modified before / around the literal, counter incremented by the literal), literal spellings (leading zeros, separators, hex, octal, binary), same-width sign-changing casts used directly, range loops (literal / variable / inclusive bounds, bounds assigned inside the body), parameters assigned inside loops and before literals, by-value array parameters written in the callee, compound assignment with literal operands on every width.',
  'C02': ' Also: literal spellings (a decimal literal with leading zeros must have the same value on both targets), optional narrowing, closures where the wasm target accepts them, small byte-aligned composite copies.',
  'C04': ' Also loops whose index counts DOWN through the negative indices (-1 .. -N valid, -(N+1) must panic or be rejected).',
- 'C05': ' Also match statements whose default arm is not the last arm, and methods that share their name with a top-level function of another signature.',
+ 'C05': ' Also match statements whose default arm is not the last arm, methods that share their name with a top-level function of another signature, and bodies that end in a call of a user function named like the builtin panic.',
  'C06': ' HarnessC06Receivers: 11 struct-typed places (const, element / field of a const, value behind &P parameter / receiver / local, struct field of type &P | let, let array element, &\'P parameter / local) x 8 mutation forms incl. calls of &\'-receiver methods x 5 contexts. HarnessC06FnTypes: a function writing through a &\'P parameter supplied where fn(q: &P) is expected, 6 positions x named function / literal.',
  'C07': ' HarnessC07Escapes: returning a reference to a local (initialised or declared bare, whole or field, direct or through a reference variable, 3 contexts) is rejected; returning a received reference is accepted.',
  'C08': ' u32 index type in the quick tier; the known-finding region of D5 is exactly the inputs whose narrowed index lands on an element, the obligation is re-asked outside it.',
  'C09': ' Fifth rewrite: bind the first nested cast to a fresh local (bases: casts consumed directly by a compare or a widening cast, incl. same-width sign changes).',
  'C10': ' HarnessC10Sequence: two range checks in one compilation (boundary texts of one width against its signed and unsigned type, either order) - the verdict has no memory.',
  'C12': ' HarnessC12Modules now covers 31 positions of a cross-module name (type annotations, struct field types, aliases, interface signatures, array / optional / map / result / reference / function types, array length, range bounds, index, match pattern, ?? default, multi-item declarations).',
- 'C13': ' HarnessC13Highlight: the snippet colouriser on every line of <= 4 characters over its 10 scanner-relevant characters. HarnessC13CodegenFailure: the native code generation phase under environment stubs (mkdir, write, embedded QBE exit code, linker fail by free choice): an error return implies an error diagnostic and the gen directory is removed again. HarnessC13Imports: 16 import forms (missing path, bad alias, unknown module, self import, duplicates, stray tokens) before / after a declaration on a two-module project.',
- 'C14': ' HarnessC14LitIDs now runs the REAL lexer and parser on two modules as two logical threads (delay bound 2): the IDs of function / struct / interface / enum literals equal those of a solitary parse. HarnessC14WasmOrder: wasm EmitProgram on three-module programs with same-named functions under both map iteration orders: byte-identical binary.',
+ 'C13': ' HarnessC13Highlight: the snippet colouriser on every line of <= 4 characters over its 10 scanner-relevant characters. HarnessC13CodegenFailure: the native code generation phase under environment stubs (mkdir, write, embedded QBE exit code, linker fail by free choice): an error return implies an error diagnostic and the gen directory is removed again. HarnessC13Imports: 16 import forms (missing path, bad alias, unknown module, self import, duplicates, stray tokens) before / after a declaration on a two-module project. HarnessC13EmitAll: the real bag / emitter on N notes (N up to 64) followed by one error prints the error. HarnessC13Bytes also binds the unrecognized-character diagnostic to the position of the inserted character.',
+ 'C14': ' HarnessC14LitIDs now runs the REAL lexer and parser on two modules as two logical threads (delay bound 2): the IDs of function / struct / interface / enum literals equal those of a solitary parse. HarnessC14WasmOrder: wasm EmitProgram on three-module programs with same-named functions under both map iteration orders: byte-identical binary. HarnessC14VTableOrder: mir/gen GenerateModule under both map orders. HarnessC14ImportResolution: the real module scheduler over a (stub / real) file system where a shadowing file sits next to one importer: the file that becomes a module does not depend on the schedule (delay bound 2).',
  'C15': ' HarnessC15Order: every acyclic graph over 5 modules (6 thorough): the topological order lists each module once, dependencies first.',
- 'C17': ' Also the map-literal constructor ferret_map_from_pairs on 2 (3 thorough) symbolic pairs whose keys may coincide; ferret_map_has and the optional-returning lookup ferret_map_get_optional_out (flag byte and payload) against the abstract map; ferret_map_destroy frees every block exactly once (no double free, nothing left allocated).',
+ 'C17': ' Also the map-literal constructor ferret_map_from_pairs on 2 (3 thorough) symbolic pairs whose keys may coincide; ferret_map_has and the optional-returning lookup ferret_map_get_optional_out (flag byte and payload) against the abstract map; ferret_map_destroy frees every block exactly once (no double free, nothing left allocated); iteration over an EMPTY map the way the compiled loop does it (iter_next after a refused iter_begin, iterator object with arbitrary initial bytes).',
  'C18': ' Also whole-value copies of byte-aligned composites of 2, 3, 6, 7 bytes (struct assigned into a fixed-array element, struct wrapped into / read out of an optional, discriminant set / cleared / set).',
  'C19': ' Non-ASCII comment text (2- and 3-byte UTF-8 characters): columns advance by characters, indices by bytes (gap harness and Position.Advance kernel).',
  'C16': ' pow: INIT/STEP/EXIT on the real square-and-multiply loop for all four types (the 128-bit ones through their register ABI). Integer -> decimal text: to_string_ptr on every value of at most 2 (4 thorough) decimal digits incl. negative ones, and one step of the digit extraction (ferret_div_small_limbs) from an arbitrary limb state.',
